@@ -151,6 +151,27 @@ func c12Kinds() []c12Kind {
 			}
 			return fmt.Sprint(g), true
 		}, func(cs tls.ConnectionState, v string) bool { return false }},
+		{"serverhello-keyshare-group-is-the-clients-grease-value", func(o offer, hk *connHooks, sc *serverChoice, x *explore.X) (string, bool) {
+			// RFC 8701: a GREASE value in key_share is not an offer; a server "selecting" it must be refused
+			grease := o.greaseShare
+			if grease == 0 || !has16(o.versions, tls.VersionTLS13) || !has16(o.shares, 29) {
+				return "", false
+			}
+			sc.Vers = tls.VersionTLS13
+			sc.Group = 29
+			hk.Out = func(n int, t uint8, d []byte) []byte {
+				if t == 2 && !isHRR(d) {
+					if sp, ok := parseServerHello(d); ok {
+						if e := sp.find(51); e != nil && len(e.body) >= 4 {
+							e.body = append([]byte{byte(grease >> 8), byte(grease)}, e.body[2:]...)
+							return sp.build()
+						}
+					}
+				}
+				return d
+			}
+			return fmt.Sprint(grease), true
+		}, func(cs tls.ConnectionState, v string) bool { return false }},
 		{"hello-retry-request-group-not-listed", func(o offer, hk *connHooks, sc *serverChoice, x *explore.X) (string, bool) {
 			if !has16(o.versions, tls.VersionTLS13) || len(o.shares) == 0 {
 				return "", false
@@ -176,6 +197,11 @@ func c12Kinds() []c12Kind {
 			}
 			sc.Vers = vers
 			proto := "verif-unoffered"
+			for _, p := range o.protos {
+				if p == proto {
+					proto = "verif-unoffered-2" // (a client that puts Config.NextProtos on the wire did offer the first one)
+				}
+			}
 			if len(o.protos) > 0 {
 				sc.Proto = o.protos[0] // the server config negotiates an offered one; the wire says another
 			}
@@ -278,6 +304,11 @@ func c12Scenario(clients []gridClient) *explore.Scenario {
 		Run: func(x *explore.X) (r explore.Result) {
 			g := clients[x.Choose("client", len(clients))]
 			k := kinds[x.Choose("kind", len(kinds))]
+			// the application's Config.NextProtos may name protocols the spec's ALPN extension does not
+			// (or the spec may have no ALPN extension at all): only the wire counts as an offer
+			if x.Choose("cli.nextprotos", 2) == 1 {
+				g.NextProtos = []string{"verif-unoffered", "h2"}
+			}
 			h0, err := g.probeHello()
 			if err != nil {
 				r.Obs = "no-hello"
@@ -513,7 +544,7 @@ func c12Scenarios(thorough bool) []*explore.Scenario {
 func init() {
 	register(&Prop{ID: "C12", Level: "exploration", Variant: "A", Scenarios: c12Scenarios,
 		Run: func(c *explore.Check, thorough bool) {
-			c.Rule = "every discovered ID, randomized seeds, custom specs incl. single-suite specs x environment {own Config, *Config shared with a second connection (other parrot family / custom spec) that builds its hello while this one awaits the server} x {first connection, connection offering a session cached by an honest first connection} x unoffered-choice kind {TLS 1.3 suite (forced through the suite hook, self-consistent), TLS 1.2 suite (forced, self-consistent), GREASE / TLS 1.3 suite id in a TLS 1.2 ServerHello, HelloRetryRequest naming a group the hello does not list, ServerHello key_share group without a sent share, ALPN not offered (1.3 EncryptedExtensions / 1.2 ServerHello), compression method 1, selected PSK identity without a PSK offer, legacy session id altered / emptied; over QUIC (UQUICClient vs the package's QUICServer): a non-empty session id echoed to a client that sent none} x every value of the kind's complement menu: Handshake must fail, HandshakeComplete must stay false, no application data, and ConnectionState must not report the value. Certificate-compression: a CompressedCertificate in an algorithm the hello did not list, or after the extension was removed and the hello rebuilt, must be refused (scenario shared with C21). distinct = (client, kind, value)"
+			c.Rule = "every discovered ID, randomized seeds, custom specs incl. single-suite specs x environment {own Config, *Config shared with a second connection (other parrot family / custom spec) that builds its hello while this one awaits the server} x {first connection, connection offering a session cached by an honest first connection} x unoffered-choice kind {TLS 1.3 suite (forced through the suite hook, self-consistent), TLS 1.2 suite (forced, self-consistent), GREASE / TLS 1.3 suite id in a TLS 1.2 ServerHello, HelloRetryRequest naming a group the hello does not list, ServerHello key_share labelled with the client's GREASE group, ServerHello key_share group without a sent share, ALPN not offered (1.3 EncryptedExtensions / 1.2 ServerHello), compression method 1, selected PSK identity without a PSK offer, legacy session id altered / emptied; over QUIC (UQUICClient vs the package's QUICServer): a non-empty session id echoed to a client that sent none} x every value of the kind's complement menu: Handshake must fail, HandshakeComplete must stay false, no application data, and ConnectionState must not report the value. Certificate-compression: a CompressedCertificate in an algorithm the hello did not list, or after the extension was removed and the hello rebuilt, must be refused (scenario shared with C21). distinct = (client, kind, value)"
 			c.Assumptions = []string{"forced suites/ALPN keep the hooked server self-consistent (a client lacking the check would complete); ServerHello byte edits (group, compression, session id, PSK) make the server's own transcript diverge, so those rows rely on the client rejecting before Finished"}
 			runAll(c, c12Scenarios(thorough), 0)
 			for _, k := range c12Kinds() {
